@@ -387,8 +387,16 @@ func genWirePacket(r *Rng) (w []byte, class string) {
 		}
 		ats = append(ats, a)
 	}
-	if r.Chance(1, 5) { // an attribute the library does not interpret
-		ats = append(ats, wireAttr{ty: r.Pick([]int{4, 12, 14, 22, 99}), body: append([]byte{byte(r.Intn(256)), byte(r.Intn(256))}, r.Bytes(4*r.Intn(4))...)})
+	if r.Chance(1, 3) { // one to three attributes the library does not interpret, non-skippable (< 128) and skippable ones
+		pool := []int{4, 12, 14, 22, 99, 129, 130, 132, 133, 135, 136, 137, 200, 255}
+		for k, used := r.Range(1, 3), map[int]bool{}; k > 0; k-- {
+			t := r.Pick(pool)
+			if used[t] {
+				continue
+			}
+			used[t] = true
+			ats = append(ats, wireAttr{ty: t, body: append([]byte{byte(r.Intn(256)), byte(r.Intn(256))}, r.Bytes(4*r.Intn(4))...)})
+		}
 	}
 	ordered := true
 	if r.Chance(1, 3) {
